@@ -348,7 +348,7 @@ Definition agree_encode (v : sval) (impl : list N) : bool := bytes_eqb (mp_encod
                   points, ...): only "both accept => same value" is required. *)
 Definition agree_decode (exact : bool) (s : shape) (bs : list N) (impl : option sval) : bool :=
   match mp_from_slice s bs, impl with
-  | Some v, Some v' => sval_eqb v v'
+  | Some v, Some v' => if exact then sval_eqb v v' else sval_sim v v'
   | None, None => true
   | _, _ => negb exact
   end.
